@@ -458,13 +458,13 @@ Qed.
 
 Lemma exception_doc_split t msg code loc :
   single_exc t = true ->
-  exception_doc t msg code loc =
+  exception_doc_raw t msg code loc =
   render (env0 code loc) (tpl_before t) ++ html_escape msg ++ render (env0 code loc) (tpl_after t).
 Proof.
   unfold single_exc. intros H. apply andb_true_iff in H. destruct H as [H H3].
   apply andb_true_iff in H. destruct H as [H1 H2].
   apply negb_true_iff in H2. apply negb_true_iff in H3.
-  unfold exception_doc. rewrite render_split by exact H1. cbn [e_exc].
+  unfold exception_doc_raw. rewrite render_split by exact H1. cbn [e_exc].
   rewrite (render_noexc _ (env0 code loc) (tpl_before t)); [|split; reflexivity|exact H2].
   rewrite (render_noexc _ (env0 code loc) (tpl_after t)); [|split; reflexivity|exact H3].
   reflexivity.
@@ -478,7 +478,7 @@ Definition fixed_structure (t : list piece) (code loc : option str) : Prop :=
   exists tp pre post ts,
     toks_blank tp = true /\ blank pre = true /\ blank post = true /\ toks_blank ts = true /\
     forall msg,
-      tokenize (exception_doc t msg code loc) = tp ++ Text (pre ++ html_escape msg ++ post) :: ts.
+      tokenize (exception_doc_raw t msg code loc) = tp ++ Text (pre ++ html_escape msg ++ post) :: ts.
 
 Lemma template_ok_sound t code loc : template_ok t code loc = true -> fixed_structure t code loc.
 Proof.
@@ -529,7 +529,7 @@ Qed.
 
 Lemma fixed_structure_skeleton t code loc :
   fixed_structure t code loc ->
-  forall msg, skeleton (tokenize (exception_doc t msg code loc)) = skeleton (tokenize (exception_doc t [] code loc)).
+  forall msg, skeleton (tokenize (exception_doc_raw t msg code loc)) = skeleton (tokenize (exception_doc_raw t [] code loc)).
 Proof.
   intros [tp [pre [post [ts [_ [_ [_ [_ H]]]]]]]] msg.
   rewrite (H msg), (H []). rewrite !skeleton_app. reflexivity.
@@ -540,7 +540,7 @@ Lemma fixed_structure_text t code loc :
   exists tp pre post ts,
     toks_blank tp = true /\ blank pre = true /\ blank post = true /\ toks_blank ts = true /\
     forall msg, exists raw,
-      tokenize (exception_doc t msg code loc) = tp ++ Text raw :: ts /\
+      tokenize (exception_doc_raw t msg code loc) = tp ++ Text raw :: ts /\
       unescape raw = pre ++ msg ++ post.
 Proof.
   intros [tp [pre [post [ts [H1 [H2 [H3 [H4 H]]]]]]]].
@@ -554,7 +554,7 @@ Qed.
 Lemma exception_documents_same_skeleton t code loc :
   In t exception_templates -> In code (opt_strs exception_codes) -> In loc (opt_strs exception_locators) ->
   forall msg,
-    skeleton (tokenize (exception_doc t msg code loc)) = skeleton (tokenize (exception_doc t [] code loc)).
+    skeleton (tokenize (exception_doc_raw t msg code loc)) = skeleton (tokenize (exception_doc_raw t [] code loc)).
 Proof. intros Ht Hc Hl. apply fixed_structure_skeleton. apply exception_documents_fixed; assumption. Qed.
 
 Lemma exception_documents_text t code loc :
@@ -562,7 +562,7 @@ Lemma exception_documents_text t code loc :
   exists tp pre post ts,
     toks_blank tp = true /\ blank pre = true /\ blank post = true /\ toks_blank ts = true /\
     forall msg, exists raw,
-      tokenize (exception_doc t msg code loc) = tp ++ Text raw :: ts /\
+      tokenize (exception_doc_raw t msg code loc) = tp ++ Text raw :: ts /\
       unescape raw = pre ++ msg ++ post.
 Proof. intros Ht Hc Hl. apply fixed_structure_text. apply exception_documents_fixed; assumption. Qed.
 
@@ -608,7 +608,7 @@ Qed.
 Lemma template_chars_ok_sound t code loc msg :
   single_exc t = true -> template_chars_ok t code loc = true ->
   (forall c, In c msg -> xml_char c = true) ->
-  forall c, In c (exception_doc t msg code loc) -> xml_char c = true.
+  forall c, In c (exception_doc_raw t msg code loc) -> xml_char c = true.
 Proof.
   intros H1 H2 Hm c Hc. rewrite exception_doc_split in Hc by exact H1.
   unfold template_chars_ok in H2. apply andb_true_iff in H2. destruct H2 as [HP HS].
@@ -631,7 +631,7 @@ Qed.
 Lemma exception_documents_xml_chars t code loc msg :
   In t exception_templates -> In code (opt_strs exception_codes) -> In loc (opt_strs exception_locators) ->
   (forall c, In c msg -> xml_char c = true) ->
-  forall c, In c (exception_doc t msg code loc) -> xml_char c = true.
+  forall c, In c (exception_doc_raw t msg code loc) -> xml_char c = true.
 Proof.
   intros Ht Hc Hl. apply template_chars_ok_sound.
   - apply (template_ok_single t code loc).
@@ -645,18 +645,8 @@ Proof.
     exact (In_forallb _ _ _ H2 Hl).
 Qed.
 
-(* ... but without that hypothesis the statement is false: html.escape passes U+0001 through (finding
-   `xml-illegal-character`). *)
-Lemma exception_documents_xml_chars_refuted :
-  exists t msg c, In t exception_templates /\ In c (exception_doc t msg None None) /\ xml_char c = false.
-Proof.
-  exists tpl_tms_exception, [1], 1. split; [unfold exception_templates; cbn [In]; auto|].
-  split; [|reflexivity].
-  rewrite exception_doc_split by (vm_compute; reflexivity).
-  apply in_or_app. right. apply in_or_app. left. vm_compute. left. reflexivity.
-Qed.
+(* ---- the documents of the render methods: the message is sanitised first (exception_doc) ---- *)
 
-(* the repaired render methods (message passed through xml_sanitize) need no hypothesis *)
 Lemma xml_sanitize_chars s c : In c (xml_sanitize s) -> xml_char c = true.
 Proof.
   unfold xml_sanitize. intros H. apply in_map_iff in H. destruct H as [x [Hx _]].
@@ -670,16 +660,52 @@ Proof.
   intros c Hc. apply H. right. exact Hc.
 Qed.
 
-Lemma exception_documents_sanitized_xml_chars t code loc msg :
+Lemma xml_sanitize_length s : length (xml_sanitize s) = length s.
+Proof. unfold xml_sanitize. apply map_length. Qed.
+
+(* no hypothesis on the message any more *)
+Lemma exception_doc_all_xml_chars t code loc msg :
   In t exception_templates -> In code (opt_strs exception_codes) -> In loc (opt_strs exception_locators) ->
-  forall c, In c (exception_doc t (xml_sanitize msg) code loc) -> xml_char c = true.
+  forall c, In c (exception_doc t msg code loc) -> xml_char c = true.
 Proof.
-  intros Ht Hc Hl. apply exception_documents_xml_chars; try assumption. apply xml_sanitize_chars.
+  intros Ht Hc Hl. unfold exception_doc. apply exception_documents_xml_chars; try assumption. apply xml_sanitize_chars.
 Qed.
 
-(* inserting text that contains the quote character into an attribute value does change the structure
-   (finding `capabilities,host-header-markup`: the capabilities templates insert the request host unescaped) *)
-Lemma unescaped_attribute_refuted :
+Lemma exception_doc_fixed t code loc :
+  In t exception_templates -> In code (opt_strs exception_codes) -> In loc (opt_strs exception_locators) ->
+  exists tp pre post ts,
+    toks_blank tp = true /\ blank pre = true /\ blank post = true /\ toks_blank ts = true /\
+    forall msg,
+      tokenize (exception_doc t msg code loc) = tp ++ Text (pre ++ html_escape (xml_sanitize msg) ++ post) :: ts.
+Proof.
+  intros Ht Hc Hl. destruct (exception_documents_fixed t code loc Ht Hc Hl) as [tp [pre [post [ts [H1 [H2 [H3 [H4 H]]]]]]]].
+  exists tp, pre, post, ts. repeat split; try assumption. intros msg. unfold exception_doc. apply H.
+Qed.
+
+Lemma exception_doc_skeleton t code loc :
+  In t exception_templates -> In code (opt_strs exception_codes) -> In loc (opt_strs exception_locators) ->
+  forall msg,
+    skeleton (tokenize (exception_doc t msg code loc)) = skeleton (tokenize (exception_doc t [] code loc)).
+Proof.
+  intros Ht Hc Hl msg. unfold exception_doc. cbn [xml_sanitize map].
+  apply exception_documents_same_skeleton; assumption.
+Qed.
+
+Lemma exception_doc_text t code loc :
+  In t exception_templates -> In code (opt_strs exception_codes) -> In loc (opt_strs exception_locators) ->
+  exists tp pre post ts,
+    toks_blank tp = true /\ blank pre = true /\ blank post = true /\ toks_blank ts = true /\
+    forall msg, exists raw,
+      tokenize (exception_doc t msg code loc) = tp ++ Text raw :: ts /\
+      unescape raw = pre ++ xml_sanitize msg ++ post.
+Proof.
+  intros Ht Hc Hl. destruct (exception_documents_text t code loc Ht Hc Hl) as [tp [pre [post [ts [H1 [H2 [H3 [H4 H]]]]]]]].
+  exists tp, pre, post, ts. repeat split; try assumption. intros msg. unfold exception_doc. apply H.
+Qed.
+
+(* non-vacuity of the hypothesis of insertion_attr: text that contains the quote character does change the
+   structure (this was finding C18-b before Request.base_url escaped the host) *)
+Example unescaped_attribute_breaks_structure :
   exists P S E, attr_position c_quot P /\
     skeleton (tokenize (P ++ E ++ S)) <> skeleton (tokenize (P ++ [] ++ S)).
 Proof.
@@ -694,7 +720,7 @@ Proof. vm_compute. reflexivity. Qed.
 
 Lemma exception_documents_well_nested t code loc msg :
   In t exception_templates -> In code (opt_strs exception_codes) -> In loc (opt_strs exception_locators) ->
-  well_nested (tokenize (exception_doc t msg code loc)) = true.
+  well_nested (tokenize (exception_doc_raw t msg code loc)) = true.
 Proof.
   intros Ht Hc Hl. unfold well_nested.
   rewrite (exception_documents_same_skeleton t code loc Ht Hc Hl msg).
@@ -703,6 +729,11 @@ Proof.
   pose proof (In_forallb _ _ _ H1 Hc) as H2. cbn beta in H2.
   exact (In_forallb _ _ _ H2 Hl).
 Qed.
+
+Lemma exception_doc_nested t code loc msg :
+  In t exception_templates -> In code (opt_strs exception_codes) -> In loc (opt_strs exception_locators) ->
+  well_nested (tokenize (exception_doc t msg code loc)) = true.
+Proof. intros Ht Hc Hl. unfold exception_doc. apply exception_documents_well_nested; assumption. Qed.
 
 Example not_nested_example : well_nested (tokenize [60; 97; 62; 60; 98; 62; 60; 47; 97; 62]) = false.  (* <a><b></a> *)
 Proof. vm_compute. reflexivity. Qed.
@@ -801,14 +832,23 @@ Qed.
 
 (* and on a concrete hostile message the only non-blank text node is the escaped message *)
 Example wms111_document_concrete :
-  filter (fun t => negb (tok_blank t)) (tokenize (exception_doc tpl_wms111exception ex_msg (Some c_InvalidSRS) None))
+  filter (fun t => negb (tok_blank t)) (tokenize (exception_doc_raw tpl_wms111exception ex_msg (Some c_InvalidSRS) None))
   = [Text (html_escape ex_msg)].
 Proof. vm_compute. reflexivity. Qed.
 
 Example ows_document_concrete :
   filter (fun t => negb (tok_blank t))
-    (tokenize (exception_doc tpl_ows_exception ex_msg (Some c_InvalidSRS) (Some [115; 101; 114; 118; 105; 99; 101])))
+    (tokenize (exception_doc_raw tpl_ows_exception ex_msg (Some c_InvalidSRS) (Some [115; 101; 114; 118; 105; 99; 101])))
   = [Text (html_escape ex_msg)].
+Proof. vm_compute. reflexivity. Qed.
+
+(* U+0001 and a lone surrogate are replaced, the rest of the message survives *)
+Example sanitize_example : xml_sanitize [97; 1; 55296; 233; 65534; 128512] = [97; 65533; 65533; 233; 65533; 128512].
+Proof. vm_compute. reflexivity. Qed.
+
+Example sanitized_document_example :
+  filter (fun t => negb (tok_blank t)) (tokenize (exception_doc tpl_tms_exception [60; 1] None None))
+  = [Text [38; 108; 116; 59; 65533]].
 Proof. vm_compute. reflexivity. Qed.
 
 (* a template that puts the message into an attribute is rejected by the check *)
